@@ -366,7 +366,7 @@ func check(c Case, ev *evid.Collector) *evid.Violation {
 	}
 	nt := nCred >= 2 && len(st.traversed) > 0
 	ev.Case(nt, c.shape(), classes...)
-	ev.Sample(map[string]any{"hosts": len(c.Hosts), "ops": len(c.Ops), "requests": len(st.perHost), "traversed": st.traversed, "errs": res.errs, "shape": c.shape()})
+	ev.Sample(map[string]any{"hosts": len(c.Hosts), "ops": len(c.Ops), "requests": st.requests, "traversed": st.traversed, "errs": res.errs, "shape": c.shape()})
 	if os.Getenv("VERIF_DEBUG") != "" {
 		dump(&c, res, vs)
 	}
